@@ -262,6 +262,21 @@ def run(ctx):
         ctx.validated()
     run_raw_whitespace(ctx, jinja2)
     run_autoescape_blocks(ctx, jinja2)
+    run_loader_overlays(ctx, jinja2)
+    # line comments directly after a tag that ends in '-' (+ blanks): re-observes the recorded finding
+    lenv = jinja2.Environment(line_statement_prefix="#", line_comment_prefix="##")
+    for src in ("{% if true -%}   ## c\nfoo{% endif %}", "{# a -#}   ## c\nfoo", "{{ 1 -}} \t## c\nfoo", "{% raw %}r{% endraw -%}  ## c"):
+        try:
+            got = "D " + lenv.from_string(src).render()
+        except Exception as e:
+            got = "X:" + type(e).__name__
+        case = {"kind": "line-comment-after-minus", "src": src}
+        ctx.case(sample=case, key=("lcminus", src))
+        ctx.count("line_comment_after_minus_probe")
+        if "## c" in got or not got.startswith("D "):
+            ctx.reject(case, "the line comment is rendered as text: %r" % got, KNOWN_LC_MINUS)
+        else:
+            ctx.validated()
     # configuration axis "bytecode cache shared between environments": re-observes the recorded finding
     for src, kw2 in (("a\nb\n", dict(newline_sequence="\r\n", keep_trailing_newline=True)), ("x\r\ny\n", dict(newline_sequence="\r")),
                      ("p\n", dict(keep_trailing_newline=True))):
@@ -309,8 +324,61 @@ def run_raw_whitespace(ctx, jinja2):
             ctx.validated()
 
 
+KNOWN_LC_MINUS = "C11:line-comment-after-minus-tag-rendered-as-text"
 KNOWN_BCC = "C11:shared-bytecode-cache-ignores-newline-options"
 KNOWN_FINALIZE = "C11:finalize-x-runtime-autoescape-template-data"
+
+
+def run_loader_overlays(ctx, jinja2):
+    """templates fetched BY NAME through a loader: the parent environment loads (and caches) the template first,
+    then an overlay overriding a subset of the options (newline_sequence / keep_trailing_newline / ...) fetches
+    the same name; cache sizes default / 50 / unlimited; also a second overlay of the same parent"""
+    for j in range(ctx.size(400, 4000)):
+        c = L.Cfg(ctx.rng.choice(["default", "default", "angle", "line"]), nl=ctx.rng.choice(NLS), keep=ctx.rng.random() < 0.5)
+        src = rand_text(ctx.rng, ctx.rng.randint(1, 12))
+        if has_start(c, src) or has_start(L.Cfg("dollar"), src):
+            continue
+        names = list(L.OPTION_GROUPS)
+        groups = ctx.rng.choice([["newline"], ["keep"], ["newline", "keep"], [g for g in names if ctx.rng.random() < 0.5] or ["newline"]])
+        kw = c.kwargs()
+        parent_kw = dict(kw)
+        over = {}
+        for g in groups:
+            for k_ in L.OPTION_GROUPS[g]:
+                over[k_] = kw[k_]
+            if g == "syntax":
+                for k_, v in zip(L.OPTION_GROUPS["syntax"], L.DELIMS["dollar"]):
+                    parent_kw[k_] = v
+            elif g == "newline":
+                parent_kw["newline_sequence"] = "\r" if kw["newline_sequence"] != "\r" else "\n"
+            else:
+                parent_kw[L.OPTION_GROUPS[g][0]] = not kw[L.OPTION_GROUPS[g][0]]
+        cache_size = ctx.rng.choice([400, 50, -1])
+        loader = jinja2.DictLoader({"t": src, "u": src + "x"})
+        parent = jinja2.Environment(loader=loader, cache_size=cache_size, **parent_kw)
+        pc = L.Cfg("default", nl=parent_kw["newline_sequence"], keep=parent_kw["keep_trailing_newline"])
+        case = {"kind": "loader-overlay", "cfg": c.describe(), "src": src, "overridden": groups, "cache_size": cache_size, "parent": parent_kw}
+        ctx.case(sample=case if j < 2 else None, key=("loaderov", c.key(), src, tuple(groups)))
+        ctx.count("loader_overlay")
+        try:
+            before = parent.get_template("t").render()                      # the parent loads the template first
+            ov = parent.overlay(**over)
+            got = ov.get_template("t").render()
+            got2 = parent.overlay(**over).get_template("u").render()
+            after = parent.get_template("t").render()
+        except Exception as e:
+            ctx.reject(case, "loader route raised %s: %s" % (type(e).__name__, e), "C11:loaderov-error:%r" % src)
+            continue
+        want = spec_plain(src, c.nl, c.keep)
+        want_parent = spec_plain(src, pc.nl, pc.keep)
+        if got != want or got2 != spec_plain(src + "x", c.nl, c.keep):
+            ctx.reject(case, "overlay(%s).get_template after the parent loaded the name renders %r, spec_plain %r" % ("+".join(groups), got, want),
+                       "C11:loaderov:%r:%s:%s" % (src, c.key(), "+".join(groups)))
+        elif before != want_parent or after != want_parent:
+            ctx.reject(case, "the parent renders %r before and %r after the overlay, spec_plain %r" % (before, after, want_parent),
+                       "C11:loaderparent:%r:%s" % (src, c.key()))
+        else:
+            ctx.validated()
 
 
 def run_autoescape_blocks(ctx, jinja2):
@@ -420,6 +488,25 @@ def replay(ctx, data):
     if data.get("kind") != "failing-input" or case is None:
         print("replay: this file names a broken theorem/correspondence, not an input:", data.get("broken"))
         return run(ctx)
+    if case.get("kind") == "line-comment-after-minus":
+        lenv = jinja2.Environment(line_statement_prefix="#", line_comment_prefix="##")
+        got = lenv.from_string(case["src"]).render()
+        print(repr(case["src"]), "->", repr(got))
+        if "## c" in got:
+            ctx.reject(case, "the line comment is rendered as text: %r" % got, data.get("signature"))
+        return
+    if case.get("kind") == "loader-overlay":
+        c = L.Cfg.from_desc(case["cfg"])
+        kw = c.kwargs()
+        over = {k_: kw[k_] for g in case["overridden"] for k_ in L.OPTION_GROUPS[g]}
+        parent = jinja2.Environment(loader=jinja2.DictLoader({"t": case["src"]}), cache_size=case["cache_size"], **case["parent"])
+        parent.get_template("t").render()
+        got = parent.overlay(**over).get_template("t").render()
+        fresh = jinja2.Environment(loader=jinja2.DictLoader({"t": case["src"]}), **kw).get_template("t").render()
+        print("source:", repr(case["src"]), "overlay of a parent that loaded it:", repr(got), "fresh:", repr(fresh))
+        if got != fresh:
+            ctx.reject(case, "overlay renders %r, a fresh environment %r" % (got, fresh), data.get("signature"))
+        return
     if case.get("kind") == "autoescape-block":
         okw = {"plain": {}, "autoescape_on": {"autoescape": True}, "selector": {"autoescape": jinja2.select_autoescape(default_for_string=True)},
                "finalize_const": {"finalize": lambda v: "X"}, "finalize_none": {"finalize": lambda v: "" if v is None else v},
